@@ -110,6 +110,7 @@ fn main() {
         "c12" => suites::connsuites::c12(&mut rec, &mut rng, thorough),
         "c13" => suites::connsuites::c13(&mut rec, &mut rng, thorough),
         "c14" => suites::connsuites::c14(&mut rec, &mut rng, thorough),
+        "conn-enum" => suites::connsuites::conn_enum(&mut rec, &mut rng, thorough),
         "srv-c07" => suites::srvsuites::c07(&mut rec, &mut rng, thorough),
         "srv-c08" => suites::srvsuites::c08(&mut rec, &mut rng, thorough),
         "srv-c09" => suites::srvsuites::c09(&mut rec, &mut rng, thorough),
